@@ -83,10 +83,7 @@ func (provider *Provider) Layout(name string) (*template.Template, error) {
 	if name == "" {
 		name = goathtml.DefaultLayout
 	}
-	tmpl, ok := provider.layouts[name]
-	if ok {
-		return tmpl, nil
-	}
+	// the cache is read under the layout mutex (inside layout)
 	return provider.layout(name)
 }
 
@@ -127,10 +124,7 @@ func (provider *Provider) layout(name string) (layoutTemplate *template.Template
 
 // View return template for view by name. It contains selected layout definitions and helpers
 func (provider *Provider) View(layoutName, viewName string) (tmpl *template.Template, err error) {
-	var (
-		ok  bool
-		key string
-	)
+	var key string
 	if layoutName == "" {
 		layoutName = goathtml.DefaultLayout
 	}
@@ -138,10 +132,7 @@ func (provider *Provider) View(layoutName, viewName string) (tmpl *template.Temp
 		return nil, goaterr.Errorf("goathtml.Provider: A view name is required")
 	}
 	key = layoutName + ":" + viewName
-	// check without lock (preformence feature)
-	if tmpl, ok = provider.views[key]; ok {
-		return tmpl, nil
-	}
+	// the cache is read under the view mutex (inside view)
 	return provider.view(layoutName, viewName, key)
 }
 
